@@ -40,6 +40,10 @@ def strategy(shard):
     @st.composite
     def case(draw):
         cands = (CANDS_MULTI if draw(st.booleans()) else CANDS)[:n]
+        hyphen = draw(st.integers(0, 5)) == 0
+        if hyphen:
+            # names with a hyphen in them ('Smith-Jones' and 'Smith' are two people)
+            cands = ["S", "S-J", "J-B", "B", "J", "S-J-B"][:n]
         winner = draw(st.sampled_from(cands))
         root = draw(st.sampled_from([c for c in cands if c != winner]))
         mode = draw(st.sampled_from(["random", "from-order", "from-order", "dense"]))
@@ -97,7 +101,7 @@ def strategy(shard):
         # (the audit log keys assertions by their label, so it cannot hold the same statement twice: such lists are
         # passed to the tree builder directly)
         labels = [(a[0], a[1]) for a in neb2] + [(a[0], tuple(a[1])) for a in nen2]
-        via_json = draw(st.booleans()) and len(set(labels)) == len(labels)
+        via_json = draw(st.booleans()) and len(set(labels)) == len(labels) and not hyphen   # (the candidate manifest has numeric ids)
         return {"cands": cands, "winner": winner, "root": root, "neb": neb2, "nen": nen2, "via_json": via_json}
 
     return case()
